@@ -298,7 +298,14 @@ class Registry:
         return c
 
     def contract_for(self, f: RepoFunc):
-        return self.contracts.get((f.mod.relpath, f.qualname))
+        c = self.contracts.get((f.mod.relpath, f.qualname))
+        if c is None and "." in f.qualname:
+            # a method of a class nested in a namespace class is found as `Inner.method`; its contract is keyed `Outer.Inner.method`
+            suffix = "." + f.qualname
+            cands = [v for (fp, qn), v in self.contracts.items() if fp == f.mod.relpath and qn.endswith(suffix)]
+            if len(cands) == 1:
+                return cands[0]
+        return c
 
     def is_current(self, ctx, f):
         return False
@@ -306,7 +313,10 @@ class Registry:
     def may_inline(self, f: RepoFunc):
         if f.is_property:
             return True
-        return (f.mod.relpath, f.qualname) in self.inlinable
+        if (f.mod.relpath, f.qualname) in self.inlinable:
+            return True
+        suffix = "." + f.qualname
+        return "." in f.qualname and sum(1 for (fp, qn) in self.inlinable if fp == f.mod.relpath and qn.endswith(suffix)) == 1
 
     def note_call(self, ctx, contract):
         self.calls_seen.setdefault(ctx.fn_label, set()).add(contract.key())
